@@ -30,6 +30,23 @@ pub fn pipe() -> Result<(File, File)> {
     Ok(unsafe { (File::from_raw_fd(fds[0]), File::from_raw_fd(fds[1])) })
 }
 
+/// Like `pipe()`, but neither descriptor is 0, 1 or 2.
+///
+/// A process that runs with some of its standard descriptors closed gets
+/// those numbers for a new pipe.  The child sets up its standard streams
+/// with `dup2()`, which would replace such a descriptor before it is used.
+pub fn pipe_above_std() -> Result<(File, File)> {
+    fn above_std(f: File) -> Result<File> {
+        if f.as_raw_fd() > 2 {
+            return Ok(f);
+        }
+        let fd = fcntl(f.as_raw_fd(), libc::F_DUPFD, Some(3))?;
+        Ok(unsafe { File::from_raw_fd(fd) })
+    }
+    let (read, write) = pipe()?;
+    Ok((above_std(read)?, above_std(write)?))
+}
+
 // marked unsafe because the child must not allocate before exec-ing
 pub unsafe fn fork() -> Result<Option<u32>> {
     let pid = check_err(libc::fork())?;
